@@ -85,7 +85,7 @@ def _strategy(draw):
         box = [edge, round(edge + draw(st.sampled_from([0.4, 1.1])), 2),
                round(max(3.0, edge - draw(st.sampled_from([0.0, 0.5]))), 2)]
     opts = {"box": box, "step_fudge": draw(st.sampled_from([0.7, 0.85, 1.0, 1.2])),
-            "max_force": draw(st.sampled_from([1e3, 1e4, 5e4, 1e5])),
+            "max_force": draw(st.sampled_from([50.0, 100.0, 300.0, 1e3, 1e4, 5e4, 1e5])),
             "grid_spacing": draw(st.sampled_from([0.2, 0.5]))}
     if draw(st.integers(0, 3)) == 0:
         lattice = [[0.3 + i, 0.3 + j, 0.3 + k] for i in range(int(box[0])) for j in range(int(box[1]))
